@@ -79,7 +79,7 @@ impl MerkleTree {
     }
 
     pub fn get_paths(&self, mut index: usize) -> Vec<u8> {
-        let mut paths = Vec::with_capacity(self.levels.len() * self.algorithm.output_len());
+        let mut paths = Vec::with_capacity(self.levels.len() * self.node_len());
         let mut level = 0;
 
         while !self.levels[level].is_empty() {
@@ -114,7 +114,8 @@ impl MerkleTree {
             }
 
             if node_count % 2 != 0 {
-                self.levels[level - 1].push(vec![0; self.algorithm.output_len()]);
+                let zero_node = vec![0; self.node_len()];
+                self.levels[level - 1].push(zero_node);
                 node_count += 1;
             }
 
@@ -158,15 +159,25 @@ impl MerkleTree {
         for data in to_hash {
             ctx.update(data);
         }
-        Data::from(ctx.finish().as_ref())
+        Data::from(&ctx.finish().as_ref()[..self.node_len()])
+    }
+
+    /// Length in bytes of every hash value (leaf, node, root) in the tree. IETF draft-13
+    /// defines its hash as the first 32 bytes of SHA-512, at every node and not only the root.
+    #[inline]
+    fn node_len(&self) -> usize {
+        match self.version {
+            RfcDraft13 => 32,
+            Google => self.algorithm.output_len(),
+        }
     }
 
     pub fn root_from_paths(&self, mut index: usize, data: &[u8], paths: &[u8]) -> Hash {
         let mut hash = self.hash_leaf(data);
 
-        assert_eq!(paths.len() % self.algorithm.output_len(), 0);
+        assert_eq!(paths.len() % self.node_len(), 0);
 
-        for path in paths.chunks(self.algorithm.output_len()) {
+        for path in paths.chunks(self.node_len()) {
             let mut ctx = digest::Context::new(self.algorithm);
             ctx.update(TREE_NODE_TWEAK);
 
@@ -180,7 +191,7 @@ impl MerkleTree {
                 ctx.update(&hash);
             }
 
-            hash = Hash::from(ctx.finish().as_ref());
+            hash = Hash::from(&ctx.finish().as_ref()[..self.node_len()]);
             index >>= 1;
         }
 
